@@ -18,6 +18,8 @@ let B = data | +T : Unit | +F : Int64 end in
 let O = data | +N : Unit | +J : Int64 * Int64 | +K : B end in
 let S = codata | .fst : Ret Int64 | .snd : Int64 -> Ret Int64 end in
 let P = codata | .run : OS | .get : Ret B end in
+let B1 = data | +T : Unit end in
+let S1 = codata | .fst : Ret Int64 end in
 "#;
 
 #[derive(Clone, Debug)]
@@ -29,6 +31,7 @@ pub struct Node {
 fn data_arms(d: &str) -> Vec<(&'static str, Value)> {
     match d {
         | "B" => vec![("T", json!({"t":"unit"})), ("F", json!({"t":"int"}))],
+        | "B1" => vec![("T", json!({"t":"unit"}))],
         | "O" => vec![
             ("N", json!({"t":"unit"})),
             ("J", json!({"t":"pair","a":{"t":"int"},"b":{"t":"int"}})),
@@ -44,6 +47,7 @@ fn co_arms(d: &str) -> Vec<(&'static str, Value)> {
             ("snd", json!({"t":"fn","a":{"t":"int"},"c":{"t":"ret","a":{"t":"int"}}})),
         ],
         | "P" => vec![("run", json!({"t":"os"})), ("get", json!({"t":"ret","a":{"t":"data","n":"B"}}))],
+        | "S1" => vec![("fst", json!({"t":"ret","a":{"t":"int"}}))],
         | _ => vec![],
     }
 }
@@ -448,6 +452,113 @@ fn balanced_outer(sx: &str) -> bool {
     depth == 0
 }
 
+// ------------------------------------------------------------------------------------------------
+// Soundness amplification (C01): when the real checker accepts a program the model rejects, the
+// mistyped binding is a candidate soundness hole.  Every elimination form of the type the binder
+// CLAIMS to have is applied to it; if the checker accepts that too and the run gets stuck, the hole
+// is a type-safety violation with a concrete stuck state.
+
+fn tok(v: Value) -> Node {
+    Node { tok: v, kids: vec![] }
+}
+fn node(v: Value, kids: Vec<Node>) -> Node {
+    Node { tok: v, kids }
+}
+/// Computations of type OS that consume variable `x` (de Bruijn level) at type `t` in every way `t` allows.
+fn eliminators(t: &Value, x: usize) -> Vec<Node> {
+    let var = || tok(json!({"k":"var","i":x}));
+    let int = |n: i64| tok(json!({"k":"int","n":n}));
+    let os = json!({"t":"os"});
+    let tint = json!({"t":"int"});
+    let exit_of = |level: usize| node(json!({"k":"exit"}), vec![tok(json!({"k":"var","i":level}))]);
+    // `do y : a <- m; cont(y)` where y gets level x + 1
+    let bind = |m: Node, a: &Value, cont: Node| node(json!({"k":"do","a":a,"c":os}), vec![m, cont]);
+    let observe = |m: Node, a: &Value| -> Node {
+        // make the bound value observable when it is an integer, otherwise just finish
+        if *a == tint { bind(m, a, exit_of(x + 1)) } else { bind(m, a, node(json!({"k":"exit"}), vec![int(0)])) }
+    };
+    let mut out = Vec::new();
+    match s(t, "t").as_str() {
+        | "int" => out.push(node(json!({"k":"exit"}), vec![var()])),
+        | "unit" | "str" => {}
+        | "pair" => out.push(node(json!({"k":"matchP","c":os}), vec![var(), node(json!({"k":"exit"}), vec![int(0)])])),
+        | "data" => {
+            let d = s(t, "n");
+            let arms = data_arms(&d);
+            let mut kids = vec![var()];
+            for (i, _) in arms.iter().enumerate() {
+                kids.push(node(json!({"k":"exit"}), vec![int(i as i64)]));
+            }
+            out.push(node(json!({"k":"match","d":d,"c":os,"skip":0}), kids));
+        }
+        | "thk" => {
+            let c = &t["c"];
+            let force = || node(json!({"k":"force","c":c}), vec![var()]);
+            match s(c, "t").as_str() {
+                | "os" => out.push(force()),
+                | "ret" => out.push(observe(force(), &c["a"])),
+                | "fn" => {
+                    if c["a"] == tint {
+                        let app = node(json!({"k":"app","a":tint,"c":c["c"]}), vec![force(), int(1)]);
+                        if s(&c["c"], "t") == "ret" { out.push(observe(app, &c["c"]["a"])) } else if c["c"] == os { out.push(app) }
+                    }
+                }
+                | "codata" => {
+                    for (d, dt) in co_arms(&s(c, "n")) {
+                        let call = node(json!({"k":"dtor","d":d,"c":dt}), vec![force()]);
+                        match s(&dt, "t").as_str() {
+                            | "os" => out.push(call),
+                            | "ret" => out.push(observe(call, &dt["a"])),
+                            | "fn" if dt["a"] == tint && s(&dt["c"], "t") == "ret" => {
+                                let app = node(json!({"k":"app","a":tint,"c":dt["c"]}), vec![call, int(1)]);
+                                out.push(observe(app, &dt["c"]["a"]));
+                            }
+                            | _ => {}
+                        }
+                    }
+                }
+                | _ => {}
+            }
+        }
+        | _ => {}
+    }
+    out
+}
+/// All variants of `root` in which the body of one `let`/`do` is replaced by an eliminator of the binder's declared type.
+fn amplify(root: &Node, depth: usize, out: &mut Vec<Node>, rebuild: &dyn Fn(Node) -> Node) {
+    let k = s(&root.tok, "k");
+    if (k == "let" || k == "do") && root.tok["c"] == json!({"t":"os"}) {
+        let a = &root.tok["a"];
+        for e in eliminators(a, depth + 1) {
+            out.push(rebuild(Node { tok: root.tok.clone(), kids: vec![root.kids[0].clone(), e] }));
+        }
+        // the same eliminations behind a function whose parameter restates the declared type
+        // (the binder itself may have been given the type of the mistyped value)
+        for e in eliminators(a, depth + 2) {
+            let os = json!({"t":"os"});
+            let lam = node(json!({"k":"lam","a":a,"c":os}), vec![e]);
+            let app = node(json!({"k":"app","a":a,"c":os}), vec![lam, tok(json!({"k":"var","i":depth + 1}))]);
+            out.push(rebuild(Node { tok: root.tok.clone(), kids: vec![root.kids[0].clone(), app] }));
+        }
+    }
+    let binds: Vec<usize> = match k.as_str() {
+        | "lam" | "fix" => vec![1],
+        | "do" | "let" => vec![0, 1],
+        | "matchP" => vec![0, 2],
+        | "match" => std::iter::once(0).chain(std::iter::repeat(1)).take(root.kids.len()).collect(),
+        | _ => vec![0; root.kids.len()],
+    };
+    for (i, c) in root.kids.iter().enumerate() {
+        let me = root.clone();
+        let rb = move |nc: Node| {
+            let mut kids = me.kids.clone();
+            kids[i] = nc;
+            rebuild(Node { tok: me.tok.clone(), kids })
+        };
+        amplify(c, depth + binds[i], out, &rb);
+    }
+}
+
 /// Expected observation from the model's result record.
 fn predicted_end(res: &Value) -> String {
     match res["end"].as_str().unwrap_or("") {
@@ -529,6 +640,7 @@ pub fn replay_core(cases_path: &str, out_path: &str, modes: &[(Ann, Naming)], sa
                 let src = r.program(&root);
                 let (v, analysis) = an.analyze("case.zy", &src);
                 let mut end_s = String::new();
+                let mut amplify_why: Option<String> = None;
                 let mk = |property: &str, kind: &str, detail: String| Finding {
                     property: property.into(),
                     kind: kind.into(),
@@ -543,7 +655,8 @@ pub fn replay_core(cases_path: &str, out_path: &str, modes: &[(Ann, Naming)], sa
                 match (&v, verdict.as_str()) {
                     | (Verdict::Accepted, "accept") => {}
                     | (Verdict::Accepted, why) => {
-                        findings.push(mk("C03", "accepts-ill-typed", format!("model rejects with {why}")))
+                        findings.push(mk("C03", "accepts-ill-typed", format!("model rejects with {why}")));
+                        amplify_why = Some(why.to_string());
                     }
                     | (Verdict::Panic { .. }, _) => {}
                     | (other, "accept") => {
@@ -587,6 +700,30 @@ pub fn replay_core(cases_path: &str, out_path: &str, modes: &[(Ann, Naming)], sa
                             ));
                         }
                     }
+                }
+                if let Some(why) = &amplify_why {
+                        // C01: try to turn the soundness hole into a stuck state
+                        let mut variants = Vec::new();
+                        amplify(&root, 0, &mut variants, &|n| n);
+                        for var in variants.iter().take(40) {
+                            let mut r2 = Renderer { ann: Ann::Full, naming: Naming::Unique, rng: Rng(1) };
+                            let src2 = r2.program(var);
+                            let (v2, a2) = an.analyze("case.zy", &src2);
+                            if let (Verdict::Accepted, Some(a2)) = (&v2, &a2) {
+                                let run2 = run_bounded(&an.session, a2, b"", &[], 20_000);
+                                if let RunEnd::Panic { class: PanicClass::Stuck, panic } = &run2.end {
+                                    findings.push(Finding {
+                                        property: "C01".into(),
+                                        kind: "stuck-after-amplification".into(),
+                                        detail: format!("{} @ {} (the checker accepts a binding the model rejects with {why}; eliminating it at its declared type gets stuck)", panic.message, panic.file),
+                                        case: case.clone(),
+                                        source: src2.clone(),
+                                        mode: mode.clone(),
+                                    });
+                                    break;
+                                }
+                            }
+                        }
                 }
                 obs.push((mode.clone(), v.short(), end_s.clone()));
                 if sample.is_none() && sample_every > 0 && idx % sample_every == 0 {
